@@ -13,6 +13,12 @@ return phi on every cell (so `sign(s) * acos(c)`, which gives 0 at phi = pi, is 
 The inter-stem torsion is evaluated on stub stems (rule interstem-points: neighbour, end, end, neighbour about the closest
 pair of stem ends) and tertiary_v2's find_atom / Atom.coordinates on stub frames over call histories (rule
 lookup-current-state: a lookup after a change of the coordinates sees the change).
+
+Round 5: the algebra reads bond vectors built by zip / comprehensions, module-level helpers with guard clauses
+(`_normalized(v)`), two-way assignment blocks and any() / all() guards; the clip is decided as a fact (the clipped quantity
+is k * cos(phi) with k a monomial in bond lengths and sines of bond angles whose supremum over the property's domain must
+not exceed 1 - a common scale |b2| for all three bonds gives k up to 9.77); rule borrowed-array-write (sa/alias.py): no
+in-place numpy operation on a name that aliases an array kept by an atom (`acc = atoms[0].coordinates; acc += ...`).
 """
 from __future__ import annotations
 
@@ -115,12 +121,14 @@ def check_function(chk, module: str, qual: str) -> None:
     fi = repo.func(module, qual)
     chk.note_function(fi)
     fold = Folder(repo, module)
+    # undecorated module-level functions the torsion function may call (a `_normalized(v)` helper ...): interpreted by the algebra
+    helpers = {name: f.node for name, f in repo.module(module).funcs.items() if "." not in name and isinstance(f.node, ast.FunctionDef) and not f.node.decorator_list and f.node is not fi.node}
     try:
-        res = TA.analyse(fi.node, fold.fold)
+        res = TA.analyse(fi.node, fold.fold, helpers)
     except TA.NotOneAtan2 as ex0:
         # not a single plain atan2(y, x): the part from the first inverse trigonometric / sign function on is read on the whole circle
         try:
-            res = CI.analyse_circle(fi.node, fold.fold)
+            res = CI.analyse_circle(fi.node, fold.fold, helpers)
         except AlgebraError as ex:
             chk.error("torsion-closed-form", fi.where, f"function body is outside the straight-line vector algebra: {ex} ({ex0})")
             return
@@ -261,6 +269,25 @@ def check_function(chk, module: str, qual: str) -> None:
             if isinstance(v, CI.Trig) and v.unit:
                 chk.ok("clip-noop", fi.site(c), f"the clipped quantity equals {v.text()} as a polynomial identity (|b1 x b2| |b2 x b3| times it is the {'cosine' if v.kind == 'c' else 'sine'} term): it lies in [-1, 1], the clip only removes round-off")
                 continue
+            rng = leaves.factor_range(v.kappa) if isinstance(v, CI.Trig) and v.kappa is not None and v.unit is not None else None
+            if rng is not None:
+                # the clipped quantity is k * cos(phi) (or k * sin(phi)) with k a monomial in bond lengths and sines of the bond angles
+                lo_k, hi_k, ktext, at = rng
+                trig = "cos(phi)" if v.kind == "c" else "sin(phi)"
+                if hi_k <= 1.0 + 1e-12:
+                    chk.ok("clip-noop", fi.site(c), f"the clipped quantity is k * {trig} with k = {ktext} <= {hi_k:.3g} on the whole domain (bond lengths 0.8-2.5 A, bond angles 20-160 degrees): it lies in [-1, 1], the clip only removes round-off")
+                else:
+                    where = ", ".join(f"{ {'l1': '|b1|', 'l2': '|b2|', 'l3': '|b3|', 's1': 'sin(theta1)', 's2': 'sin(theta2)'}[q]} = {x:g}" for q, x in at.items())
+                    chk.violation(
+                        "clip-noop",
+                        fi.site(c),
+                        f"`{norm(c)[:60]}` clips k * {trig} with k = {ktext}, which is not bounded by 1: it reaches {hi_k:.3g} on the domain of the property ({where}). Wherever k |{trig}| > 1 the clip changes this argument of the atan2 "
+                        "while the other one keeps its scale, so the value returned is not phi and depends on the bond lengths and bond angles (the torsion must be independent of them)",
+                        K(fi, "clip"),
+                        expected="a clipped quantity inside [-1, 1] on the whole domain (a product of unit vectors)",
+                        found={"k": ktext, "sup": round(hi_k, 4), "at": at},
+                    )
+                continue
         if not (isinstance(arg, ast.Call) and astq.callee_name(arg) == "dot" and len(arg.args) == 2 and lohi == [-1.0, 1.0]):
             chk.error("clip-noop", fi.site(c), f"`{norm(c)[:60]}`: clipped quantity is not a dot product clipped to [-1, 1]")
             continue
@@ -294,6 +321,8 @@ def check_users(chk) -> None:
     c18e.check_chi(chk)
     # the coordinates the table is computed from are the current ones (no answer remembered across a change of the frame)
     c18e.check_lookup_current(chk)
+    # ... and are never written in place by code that merely borrowed the array (atom.coordinates is one array per atom)
+    c18e.check_borrowed_arrays(chk)
     c03.check_cis_trans(chk)
     c11.check_bph(chk)
     # chi_class: radians against radians, evaluated on one chi per cell
@@ -322,7 +351,10 @@ def run(chk) -> None:
         "table; the inter-stem torsion on stub stems (which pair of stem ends is closest x stem lengths: the four points are neighbour, end, end, neighbour; radians scored, degrees reported); "
         "tertiary_v2.Residue.find_atom / Atom.coordinates on stub frames (what was looked up before x in-place change of the coordinates / replaced frame: a lookup answers from the current frame); "
         "cis/trans and BPh splits as before. A torsion function that is not one plain atan2 is evaluated symbolically on the eight cells of the circle (acos / asin / atan2 / sign / copysign / "
-        "conditionals over the sine and cosine terms) and must return phi on every cell, phi = 0 and phi = pi included."
+        "conditionals over the sine and cosine terms) and must return phi on every cell, phi = 0 and phi = pi included. "
+        "A clip of an atan2 argument is decided as a bound: the clipped quantity is k * cos(phi) with k a monomial in the bond lengths and the sines of the bond angles, and sup k over the domain "
+        "(0.8-2.5 A, 20-160 degrees) must be <= 1. In-place numpy operations (+=, [..] =, out=, fill ...) on names that alias an array kept per object (cached_property / field) or an array parameter of a torsion "
+        "function are found package-wide by an origin analysis (sa/alias.py)."
     )
     chk.trusted = ["CPython ast", "numpy cross/dot/norm/arctan2 semantics", "IUPAC-IUB torsion table (spec/iupac_torsions.json)"]
     chk.assumptions = [
@@ -330,7 +362,7 @@ def run(chk) -> None:
         "floating-point error is not decided",
         "input in the domain of the property (bond lengths 0.8-2.5 A, bond angles 20-160 degrees): a conditional normalisation `v / |v| if |v| > eps else v` whose threshold is below half the smallest value of that norm on the domain takes its first branch; any other conditional stays 'a positive multiple of the same vector'",
     ]
-    chk.robust |= {"torsion-closed-form", "clip-noop", "chi-atoms", "chi-agree", "chi-bases", "backbone-atoms", "cis-trans", "cis-trans-atoms", "bph-split", "bph-class-table", "chi-class-units", "chi-dispatch", "degenerate-guard", "torsion-returned", "torsion-wrapper", "interstem-points", "lookup-current-state"}
+    chk.robust |= {"torsion-closed-form", "clip-noop", "chi-atoms", "chi-agree", "chi-bases", "backbone-atoms", "cis-trans", "cis-trans-atoms", "bph-split", "bph-class-table", "chi-class-units", "chi-dispatch", "degenerate-guard", "torsion-returned", "torsion-wrapper", "interstem-points", "lookup-current-state", "borrowed-array-write"}
     check_function(chk, T1, "calculate_torsion_angle_coords")
     check_function(chk, T2, "calculate_torsion_angle")
     check_users(chk)
